@@ -6,8 +6,10 @@
 //   slerp(x,y,0) = x and slerp(x,y,1) = +-y to a few ulps, never NaN/Inf for slerp, slerp(x,y,a) = +-slerp(y,x,1-a).
 // Tolerance: forward-error bound of the interpolation formula (refslerp::arc_tol: coefficient scale, rounding of the sine arguments
 // amplified by 1/sin(theta), conditioning of acos(dot) times the sensitivity of the result to the angle; x8 margin), plus the chord
-// distance of the documented linear fallback where cos(theta) is within rounding of / above 1 - epsilon. A comparison is *decided*
+// distance of the linear fallback where cos(theta) is within rounding of / above 1 - epsilon. A comparison is *decided*
 // only when its bound is below CAP = 0.05 rad; above that only finiteness is required (counted), and the case is trivial.
+// For k != 0 the formula bound is infinite around and below the fallback threshold; below it a gross check (result within 0.5 of
+// +-the spun position when the axis is determined to < 0.1 rad) reports spins that are dropped altogether.
 #include "fp.hpp"
 #include "ref/refslerp.hpp"
 #include <glm/glm.hpp>
@@ -93,9 +95,8 @@ template <class T, int MODE> static void arc_prop(pbt::Ctx& c) {
 	c.cls(ZONE_CLS[S.zone]);
 	if (MODE != M_MIX) c.cls(S.ambiguous ? "sign: dot within rounding of 0 (either end point accepted)" : S.sgn < 0 ? "sign: dot<0 (y negated)" : "sign: dot>=0");
 	if (MODE == M_MIX && A.theta > PI_L / 2) c.cls("mix: theta > pi/2 (long way round is the documented oriented arc)");
-	const bool chord = S.zone != Z_GENERIC;
 	const R ra = (R)a;
-	Tol tol = arc_tol<T>(A, ra, k, chord);
+	Tol tol = arc_tol<T>(A, ra, k);
 	const R phi = A.theta + k * PI_L, psi = ra * phi;
 	if (c.verbose) c.logf("%s<%s> x=%s y=%s a=%.17g k=%d | theta=%.6Lg (%s), %s, bound %.3Lg", fn, ty, qstr(x).c_str(), qstr(y).c_str(), (double)a, k, A.theta, ZONE_KEY[S.zone], SP_NAME[sc], tol.total);
 
@@ -131,7 +132,7 @@ template <class T, int MODE> static void arc_prop(pbt::Ctx& c) {
 		Tol tl = tol;
 		if (S.ambiguous) {
 			Setup S2; setup_arc<T>(S2, x, y, true, -S.sgn);
-			Tol t2 = arc_tol<T>(S2.A, ra, k, false);
+			Tol t2 = arc_tol<T>(S2.A, ra, k);
 			ArcErr e2 = arc_err(S2.A, rg, ra * (S2.A.theta + k * PI_L));
 			if (rmax(e2.angle, rmax(e2.plane, e2.unit)) / t2.total < rmax(e.angle, rmax(e.plane, e.unit)) / tl.total) { e = e2; tl = t2; }
 		}
@@ -148,20 +149,21 @@ template <class T, int MODE> static void arc_prop(pbt::Ctx& c) {
 		}
 	}
 
-	// 2. spins must not be lost: where the *problem* is well conditioned (axis known to K u / sin(theta) < 1e-2) but the formula bound is
-	//    not, the result must at least be nearer to the spun position than 0.5 rad when the un-spun chord point is more than 1 away from it
-	if (MODE == M_SPIN && k != 0 && S.zone == Z_BELOW && !decided) {
-		R pc = 8 * U<T>() * (4 * (rabs(tol.k0) + rabs(tol.k1)) + 2 + 3 * (rabs(psi) + rabs(A.theta - psi)) / A.sn);
-		if (pc < NONTRIV) {
-			R P[4], L[4]; arc_point(A, psi, P);
-			for (int i = 0; i < 4; ++i) L[i] = (1 - ra) * S.rx[i] + ra * S.rz[i];
-			if (dist4(P, L) > 1) {
-				c.cls("spin below threshold: spun position more than 1 away from the chord point");
-				c.nontrivial();
-				if (dist4(rg, P) > 0.5L)
-					c.failk(key(fn, ty, "spins-lost", zk), "slerp(x=%s, y=%s, a=%.17g, k=%d)=%s: theta=%.6Lg, a*(theta+k*pi)=%.6Lg rad from x is documented (axis determined to %.2Lg), result is %.3Lg away from it", qstr(x).c_str(), qstr(y).c_str(), (double)a, k, qstr(g).c_str(), A.theta, psi, pc, dist4(rg, P));
-			}
-		}
+	// 2. spins must not be lost. Below the linear-fallback threshold the formula bound decides nothing for k != 0 (1/sin^2 theta), but the
+	//    *problem* is well conditioned there in double (the axis is known to ~8u/sin(theta)): when that is below 0.1 and the un-spun chord
+	//    point is more than 1 away from the spun position and from its negative (a different rotation, not only a different quaternion sign), the result
+	//    must at least be within 0.5 of +-the spun position.
+	if (MODE == M_SPIN && k != 0 && S.zone == Z_NEAR) c.cls("spin around the threshold: either branch, formula bound infinite (finiteness only)");
+	if (MODE == M_SPIN && k != 0 && S.zone == Z_BELOW) {
+		R pc = 8 * U<T>() * (2 * rabs(psi) + 2 + 8 / A.sn);
+		R P[4], L[4]; arc_point(A, psi, P);
+		for (int i = 0; i < 4; ++i) L[i] = (1 - ra) * S.rx[i] + ra * S.rz[i];
+		if (pc < 0.1L && rmin(dist4(P, L), dist4s(P, L, -1)) > 1) {   // up to the quaternion sign: the *rotation* must differ
+			c.cls("spin below threshold: axis well determined and spun position > 1 away from +-chord point (gross check applied)");
+			c.nontrivial();
+			if (rmin(dist4(rg, P), dist4s(rg, P, -1)) > 0.5L)
+				c.failk(key(fn, ty, "spins-lost", zk), "slerp(x=%s, y=%s, a=%.17g, k=%d)=%s: theta=%.6Lg, the point at a*(theta%+d*pi)=%.6Lg rad from x is documented (axis determined to %.2Lg rad), result is %.3Lg away from it and %.3Lg from the un-spun chord point", qstr(x).c_str(), qstr(y).c_str(), (double)a, k, qstr(g).c_str(), A.theta, k, psi, pc, dist4(rg, P), dist4(rg, L));
+		} else c.cls("spin below threshold: axis ill-determined or spun position near the chord point (finiteness only)");
 	}
 
 	// 3. end points to a few ulps per component (k = 0): slerp(x,y,0) = x, slerp(x,y,1) = +-y
@@ -171,14 +173,14 @@ template <class T, int MODE> static void arc_prop(pbt::Ctx& c) {
 			R sg = pass ? -S.sgn : S.sgn, w = 0; int wj = 0;
 			for (int i = 0; i < 4; ++i) {
 				R want = a == 0 ? S.rx[i] : sg * S.ry[i];
-				R r = rabs(rg[i] - want) / (4 * 2 * U<T>() * rabs(want) + tiny<T>());
+				R r = rabs(rg[i] - want) / (12 * U<T>() * rabs(want) + tiny<T>());
 				if (r > w) { w = r; wj = i; }
 			}
 			if (pass == 0 || w < worst) { worst = w; wi = wj; bestsg = sg; }
 		}
 		c.metric(MODE == M_SLERP ? "slerp end point err/tol" : "mix end point err/tol", (double)worst);
 		if (worst > 1)
-			c.failk(key(fn, ty, a == 0 ? "end-point-0" : "end-point-1", zk), "%s(x=%s, y=%s, a=%g)=%s, component %d differs from %s by more than 8 ulps", fn, qstr(x).c_str(), qstr(y).c_str(), (double)a, qstr(g).c_str(), wi, a == 0 ? "x" : (bestsg < 0 ? "-y" : "y"));
+			c.failk(key(fn, ty, a == 0 ? "end-point-0" : "end-point-1", zk), "%s(x=%s, y=%s, a=%g)=%s, component %d differs from %s by more than 12 u relative", fn, qstr(x).c_str(), qstr(y).c_str(), (double)a, qstr(g).c_str(), wi, a == 0 ? "x" : (bestsg < 0 ? "-y" : "y"));
 	}
 
 	// 4. slerp(x,y,a) = +- slerp(y,x,1-a)
@@ -192,14 +194,14 @@ template <class T, int MODE> static void arc_prop(pbt::Ctx& c) {
 		R rh[4]; lift(h, rh);
 		R sx[4]; for (int i = 0; i < 4; ++i) sx[i] = S.sgn * S.rx[i];
 		Arc A2 = make_arc(S.ry, sx);
-		Tol t2 = arc_tol<T>(A2, (R)b, k, chord);
+		Tol t2 = arc_tol<T>(A2, (R)b, k);
 		if (t2.total < CAP) {
 			R tsym = tol.total + t2.total + rabs((R)b - (1 - ra)) * rabs(phi) + 4 * U<T>();
-			R sg = S.sgn * ((k & 1) ? -1 : 1);
+			R sg = dist4s(rg, rh, 1) <= dist4s(rg, rh, -1) ? 1 : -1;   // "up to sign": either sign is accepted (counted)
 			R d = dist4s(rg, rh, sg);
-			if (S.ambiguous) d = rmin(d, dist4s(rg, rh, -sg));
+			if (sg != S.sgn * ((k & 1) ? -1 : 1) && !S.ambiguous) c.cls("symmetry holds with the sign opposite to the arc model's (counted)");
 			if (!within(c, MODE == M_SLERP ? "slerp symmetry err/tol" : "slerp-spin symmetry err/tol", d, tsym))
-				c.failk(key(fn, ty, "symmetry", zk, tr), "%s(x,y,a)=%s but %s(y,x,1-a)=%s for x=%s y=%s a=%.17g k=%d: not equal up to the sign %+.0Lf (distance %.3Lg, bound %.3Lg)", fn, qstr(g).c_str(), fn, qstr(h).c_str(), qstr(x).c_str(), qstr(y).c_str(), (double)a, k, sg, d, tsym);
+				c.failk(key(fn, ty, "symmetry", zk, tr), "%s(x,y,a)=%s but %s(y,x,1-a)=%s for x=%s y=%s a=%.17g k=%d: not equal up to sign (nearest sign %+.0Lf, distance %.3Lg, bound %.3Lg)", fn, qstr(g).c_str(), fn, qstr(h).c_str(), qstr(x).c_str(), qstr(y).c_str(), (double)a, k, sg, d, tsym);
 		}
 	}
 }
@@ -209,15 +211,15 @@ template <class T> static void mix_p(pbt::Ctx& c) { arc_prop<T, M_MIX>(c); }
 #define PAIR_RULE "pairs of unit quaternions rounded to T (identity / axis / coordinate rotations / rational / random / mixed-magnitude x; y = cos(theta) x + sin(theta) d with d orthogonal to x) at separations theta log-uniform " \
 	"1e-9..pi/2 from parallel and from antipodal, around the linear-fallback threshold sqrt(2 eps) on both sides (factor 0.01..100, +-2^-30), around pi/2 (sign flip), uniform, independent pairs, exactly equal / antipodal / orthogonal; " \
 	"a in {0, 1, 1/2, neighbours within 4 ulps, k/8, uniform [0,1], uniform [-2,3]}; "
-REG2(slerp_p, "slerp", 1500000, 60000000,
-     PAIR_RULE "result against the long-double arc point: unit length, in span{x,y}, angle a*theta on the shorter arc to +-y, end points to 8 ulps, finite for every pair, slerp(x,y,a) = +-slerp(y,x,1-a); "
+REG2(slerp_p, "slerp", 2500000, 50000000,
+     PAIR_RULE "result against the long-double arc point: unit length, in span{x,y}, angle a*theta on the shorter arc to +-y, end points to 12 u per component, finite for every pair, slerp(x,y,a) = +-slerp(y,x,1-a); "
      "non-trivial = theta in (1e-6, pi-1e-6), a not in {0,1}, bound < 1e-2");
-REG2(spin_p, "slerp-spin", 1500000, 60000000,
+REG2(spin_p, "slerp-spin", 2500000, 50000000,
      PAIR_RULE "spin count k in -3..3 (as int and as short); angle a*(theta + k pi) from x on the great circle through x and +-y (shorter arc end point), unit length, in-plane, finite, symmetry up to sign; "
      "below the linear-fallback threshold the formula bound (1/sin^2 theta) decides nothing, there a gross check asks that the spins are not lost when the axis is well determined; "
      "non-trivial = k != 0, theta in (1e-6, pi-1e-6), a not in {0,1}, bound < 1e-2 (or the gross check applied)");
-REG2(mix_p, "mix", 1500000, 60000000,
-     PAIR_RULE "oriented arc from x to y (no sign flip, theta up to pi): unit length, in-plane, angle a*theta, end points to 8 ulps; decided only where the bound (which grows like 1/sin^2 theta next to antipodal inputs) is below 0.05; "
+REG2(mix_p, "mix", 2500000, 50000000,
+     PAIR_RULE "oriented arc from x to y (no sign flip, theta up to pi): unit length, in-plane, angle a*theta, end points to 12 u per component; decided only where the bound (which grows like 1/sin^2 theta next to antipodal inputs) is below 0.05; "
      "non-trivial = theta in (1e-6, pi-1e-6), a not in {0,1}, bound < 1e-2");
 
 // =============================================================================================
@@ -243,7 +245,7 @@ template <class T> static void lerp_p(pbt::Ctx& c) {
 	if (a == 0 || a == 1) for (int i = 0; i < 4; ++i) if (!(g[i] == (a == 0 ? x[i] : y[i])))
 		c.failk(key("lerp", tname<T>(), "end-point", a == 0 ? "t=0" : "t=1"), "lerp(x=%s, y=%s, a=%g) component %d = %.17g", qstr(x).c_str(), qstr(y).c_str(), (double)a, i, (double)g[i]);
 }
-REG2(lerp_p, "lerp", 1000000, 50000000,
+REG2(lerp_p, "lerp", 1000000, 30000000,
      "quaternion pairs as for slerp (one third scaled to non-unit length), a in [0,1] only (asserted precondition): 0, 1, 1/2, neighbours, k/8, uniform; every component equals x*(1-a)+y*a evaluated in T (VALUE), "
      "end points exact; non-trivial = x != y and a not in {0,1}");
 
@@ -262,7 +264,7 @@ template <class T> static void shortmix_p(pbt::Ctx& c) {
 	c.cls(S.ambiguous ? "sign: dot within rounding of 0 (either end point accepted)" : S.sgn < 0 ? "sign: dot<0 (y negated)" : "sign: dot>=0");
 	const char* ty = tname<T>();
 	const char* zk = ZONE_KEY[S.zone];
-	Tol tol = arc_tol<T>(A, (R)a, 0, S.zone != Z_GENERIC);
+	Tol tol = arc_tol<T>(A, (R)a, 0);
 	if (c.verbose) c.logf("shortMix<%s> x=%s y=%s a=%.17g | theta=%.6Lg (%s), bound %.3Lg", ty, qstr(x).c_str(), qstr(y).c_str(), (double)a, A.theta, zk, tol.total);
 	T g[4]; XQ(glm::shortMix(GQ(x), GQ(y), a), g);
 	if (!finite4(g)) { c.failk(key("shortMix", ty, "non-finite", zk), "shortMix(x=%s, y=%s, a=%.17g)=%s", qstr(x).c_str(), qstr(y).c_str(), (double)a, qstr(g).c_str()); return; }
@@ -271,11 +273,11 @@ template <class T> static void shortmix_p(pbt::Ctx& c) {
 		R worst = 1e30L;
 		for (int pass = 0; pass < (a == 1 ? 2 : 1); ++pass) {
 			R w = 0;
-			for (int i = 0; i < 4; ++i) { R want = a == 0 ? S.rx[i] : (pass ? -S.ry[i] : S.ry[i]); w = rmax(w, rabs(rg[i] - want) / (8 * U<T>() * rabs(want) + tiny<T>())); }
+			for (int i = 0; i < 4; ++i) { R want = a == 0 ? S.rx[i] : (pass ? -S.ry[i] : S.ry[i]); w = rmax(w, rabs(rg[i] - want) / (12 * U<T>() * rabs(want) + tiny<T>())); }
 			worst = rmin(worst, w);
 		}
 		c.metric("shortMix end point err/tol", (double)worst);
-		if (worst > 1) c.failk(key("shortMix", ty, a == 0 ? "end-point-0" : "end-point-1", zk), "shortMix(x=%s, y=%s, a=%g)=%s is not %s to 8 ulps", qstr(x).c_str(), qstr(y).c_str(), (double)a, qstr(g).c_str(), a == 0 ? "x" : "+-y");
+		if (worst > 1) c.failk(key("shortMix", ty, a == 0 ? "end-point-0" : "end-point-1", zk), "shortMix(x=%s, y=%s, a=%g)=%s is not %s to 12 u per component", qstr(x).c_str(), qstr(y).c_str(), (double)a, qstr(g).c_str(), a == 0 ? "x" : "+-y");
 		return;
 	}
 	if (A.degenerate) {  // y = +-x: the single point x
@@ -286,7 +288,7 @@ template <class T> static void shortmix_p(pbt::Ctx& c) {
 	R best = 1e30L; ArcErr be = {0, 0, 0}; R bover = 0; Tol bt = tol; R bth = A.theta;
 	for (int pass = 0; pass < (S.ambiguous ? 2 : 1); ++pass) {
 		Setup S2; const Arc* B = &A; Tol t2 = tol;
-		if (pass) { setup_arc<T>(S2, x, y, true, -S.sgn); B = &S2.A; t2 = arc_tol<T>(S2.A, (R)a, 0, false); }
+		if (pass) { setup_arc<T>(S2, x, y, true, -S.sgn); B = &S2.A; t2 = arc_tol<T>(S2.A, (R)a, 0); }
 		Decomp D = decompose(*B, rg);
 		ArcErr e; e.unit = rabs(D.len - 1); e.plane = D.perp; e.angle = 0;
 		R over = D.ang < 0 ? -D.ang : (D.ang > B->theta ? D.ang - B->theta : 0);   // distance of the polar angle from [0, theta]
@@ -298,8 +300,8 @@ template <class T> static void shortmix_p(pbt::Ctx& c) {
 	if (!within(c, "shortMix off-plane err/tol", be.plane, bt.total)) c.failk(key("shortMix", ty, "leaves-plane", zk), "shortMix(x=%s, y=%s, a=%.17g)=%s is %.3Lg away from span{x,y} (bound %.3Lg)", qstr(x).c_str(), qstr(y).c_str(), (double)a, qstr(g).c_str(), be.plane, bt.total);
 	if (!within(c, "shortMix outside-arc err/tol", bover, bt.total)) c.failk(key("shortMix", ty, "off-short-arc", zk), "shortMix(x=%s, y=%s, a=%.17g)=%s lies %.3Lg rad outside the shorter arc [0, theta=%.9Lg] between x and +-y (bound %.3Lg)", qstr(x).c_str(), qstr(y).c_str(), (double)a, qstr(g).c_str(), bover, bth, bt.total);
 }
-REG2(shortmix_p, "shortMix", 1000000, 50000000,
-     "pairs as for slerp, a in [0,1]: a = 0 gives x and a = 1 gives +-y to 8 ulps, otherwise finite, unit length, in span{x,y} and with polar angle inside [0, theta] of the shorter arc (bound of the slerp formula); "
+REG2(shortmix_p, "shortMix", 1000000, 30000000,
+     "pairs as for slerp, a in [0,1]: a = 0 gives x and a = 1 gives +-y to 12 u per component, otherwise finite, unit length, in span{x,y} and with polar angle inside [0, theta] of the shorter arc (bound of the slerp formula); "
      "non-trivial = a not in {0,1}, theta > 1e-6, bound < 1e-2");
 
 // =============================================================================================
@@ -331,7 +333,7 @@ template <class T> static void fastmix_p(pbt::Ctx& c) {
 	if (!within(c, "fastMix value err/tol", dist4(rg, want), tol))
 		c.failk(key("fastMix", ty, "normalized-blend", tr), "fastMix(x=%s, y=%s, a=%.17g)=%s, normalize(x*(1-a)+y*a)=(w=%.17Lg,x=%.17Lg,y=%.17Lg,z=%.17Lg) (distance %.3Lg, bound %.3Lg)", qstr(x).c_str(), qstr(y).c_str(), (double)a, qstr(g).c_str(), want[0], want[1], want[2], want[3], dist4(rg, want), tol);
 }
-REG2(fastmix_p, "fastMix", 1000000, 50000000,
+REG2(fastmix_p, "fastMix", 1000000, 30000000,
      "pairs as for slerp, a as for slerp ([-2,3] incl. 0, 1, 1/2): result against normalize(x*(1-a)+y*a) in long double with the conditioning 1/|blend| (skipped when |blend| < 1e-3), unit length to 40 u; "
      "non-trivial = x != y and a not in {0,1}");
 
